@@ -2,7 +2,7 @@
    Property theorems only: each closed by [exact] of a lemma from Proofs/, followed by Print Assumptions.
    The model describes the code after the repairs of findings C06-F1, F2, F4 and F5 (F3 stays known). *)
 From Coq Require Import List String Bool Arith.
-From Verif Require Import Lib.Sexp Model.C06_alias Proofs.C06_alias.
+From Verif Require Import Lib.Sexp Model.C06_alias Proofs.C06_alias Proofs.C06_fixpoint.
 Import ListNotations.
 Open Scope list_scope. Open Scope nat_scope.
 
@@ -108,6 +108,80 @@ Theorem C06_fixpoint_partial :
   exists it, resolve_aliases coll h = (h, Ok (u, it)) /\ it <= 2.
 Proof. exact fixpoint_after_quiet_pass. Qed.
 Print Assumptions C06_fixpoint_partial.
+
+(* Fixpoint, UNCONDITIONAL form ("resolving again is a no-op"), on every heap of any size on which no target path runs
+   through an alias member (direct), stored chains are complete (not KnownGap_preresolved / C06-F3) and alias paths are
+   unique: resolve_aliases() returns normally (nothing leaves it), and on the heap it leaves behind a further pass over
+   the collection changes nothing and reports the same unresolved set, so a second resolve_aliases() returns the same
+   set, leaves the heap identical and needs at most 2 iterations.  No hypothesis about a quiet pass any more.
+   Still open: heaps where get_member walks through alias members (C06_fixpoint_partial covers them conditionally). *)
+Theorem C06_fixpoint_direct_heaps :
+  forall coll h,
+  wf coll h = true -> direct coll h = true -> chains_complete h = true -> unique_paths h = true ->
+  let h' := fst (resolve_aliases coll h) in
+  exists u it,
+    resolve_aliases coll h = (h', Ok (u, it)) /\
+    one_pass coll h' = (h', Ok (u, [])) /\
+    exists it', resolve_aliases coll h' = (h', Ok (u, it')) /\ it' <= 2.
+Proof. exact resolve_aliases_fixpoint. Qed.
+Print Assumptions C06_fixpoint_direct_heaps.
+
+(* On those heaps the outcome of Alias.resolve_target is the static walk (Model: [walk]): a pure function of the target
+   paths, the flags and which aliases are already resolved - success, AliasResolutionError naming the alias whose
+   target path does not exist, or CyclicAliasError. *)
+Theorem C06_resolution_outcome_is_static :
+  forall coll h i p tp pa w,
+  wf coll h = true -> direct coll h = true -> chains_complete h = true -> unique_paths h = true ->
+  nth_error h i = Some (NAlias p tp None pa w) ->
+  snd (resolve_top coll h i) = walk coll (fuelN h) h i [].
+Proof. exact resolve_outcome_static. Qed.
+Print Assumptions C06_resolution_outcome_is_static.
+
+(* "A failed resolve_target keeps failing once more links are stored" (the missing piece of the fixpoint): whatever
+   resolve_aliases() resolves in between, the same call fails with the same error afterwards and changes nothing. *)
+Theorem C06_failure_is_stable :
+  forall coll h i p tp pa w e,
+  wf coll h = true -> direct coll h = true -> chains_complete h = true -> unique_paths h = true ->
+  nth_error h i = Some (NAlias p tp None pa w) ->
+  snd (resolve_top coll h i) = Err e ->
+  let g := fst (resolve_aliases coll h) in
+  resolve_top coll g i = (g, Err e).
+Proof. exact failure_is_stable. Qed.
+Print Assumptions C06_failure_is_stable.
+
+(* non-vacuity of the three theorems above: the hypotheses hold of a heap on which resolve_aliases changes the heap,
+   one alias is cyclic, one resolves *)
+Theorem C06_fixpoint_nonvacuous :
+  wf w_plain_coll w_plain_heap = true /\ direct w_plain_coll w_plain_heap = true /\
+  chains_complete w_plain_heap = true /\ unique_paths w_plain_heap = true /\
+  resolve_aliases w_plain_coll w_plain_heap = (fst (resolve_aliases w_plain_coll w_plain_heap), Ok (["p.z"%string], 2)) /\
+  fst (resolve_aliases w_plain_coll w_plain_heap) <> w_plain_heap /\
+  walk w_plain_coll (fuelN w_plain_heap) w_plain_heap 5 [] = Err ECyc /\
+  walk w_plain_coll (fuelN w_plain_heap) w_plain_heap 1 [] = Ok tt.
+Proof. exact fixpoint_nonvacuous. Qed.
+Print Assumptions C06_fixpoint_nonvacuous.
+
+(* unique_paths cannot be dropped, and heaps without it are reachable: on the heap abstracted from a real package (a
+   wildcard import re-binds a name and leaves the replaced alias as the stored target of another one) every stored link
+   leads node by node to an object, yet the resolved alias p.x dereferences to CyclicAliasError, because two distinct
+   aliases of its chain share the path "p.x" (finding C06-F9, KnownGap_duplicate_path = link_verdict "false-cycle");
+   and on a direct heap with complete chains a successful resolve_target breaks chains_complete once a path is
+   duplicated.  The implementation replays the first heap on every run (witness of C06-F9). *)
+Theorem C06_unique_paths_needed :
+  (wf w_dup_coll w_dup_heap = true /\ direct w_dup_coll w_dup_heap = true /\ no_passed w_dup_heap = true /\
+   targets_complete w_dup_heap = true /\ unique_paths w_dup_heap = false /\ chains_complete w_dup_heap = false /\
+   fst (ident_walk 28 w_dup_heap (RReal 1) []) = Some 3 /\
+   snd (deref_top w_dup_coll w_dup_heap 1) = Err ECyc /\
+   snd (deref_top w_dup_coll w_dup_heap 8) = Ok 3 /\
+   link_verdict w_dup_heap w_dup_heap 1 = "false-cycle"%string /\
+   link_verdict w_pre_heap (fst (resolve_aliases w_pre_coll w_pre_heap)) 7 = "preresolved"%string) /\
+  (wf w_dup_coll w_dup2_heap = true /\ direct w_dup_coll w_dup2_heap = true /\ chains_complete w_dup2_heap = true /\
+   unique_paths w_dup2_heap = false /\
+   snd (resolve_top w_dup_coll w_dup2_heap 1) = Ok tt /\
+   chains_complete (fst (resolve_top w_dup_coll w_dup2_heap 1)) = false /\
+   snd (deref_top w_dup_coll (fst (resolve_top w_dup_coll w_dup2_heap 1)) 1) = Err ECyc).
+Proof. exact (conj unique_paths_needed unique_paths_needed_for_invariance). Qed.
+Print Assumptions C06_unique_paths_needed.
 
 (* non-vacuity: a heap satisfying every hypothesis above, on which all three outcome classes occur *)
 Theorem C06_hypotheses_satisfiable :
